@@ -13,7 +13,7 @@ import (
 
 func init() {
 	checks["C17"] = checkC17
-	explanations["C17"] = "Structural necessary condition (E1 must-pass inside package fsim): every rename of a received temp file to its destination (os.Rename or the configurable Rename hook) in the download device module, the upload owner module and the wget device module is reached only after digest-ok (bytes.Equal(SHA-384 recomputed over what was written, announced digest) is true, or — where the module allows it — no digest was announced, i.e. len(digest)==0) and, in the modules that count received bytes, after length-ok (received > announced is false). Received data is written only to files obtained from CreateTemp (os.CreateTemp or the CreateTemp hook): no other file-creating call exists in the package's transfer code, so the destination can come into being only through the guarded rename. Also: every Read in the transfer modules uses the returned byte count, and http.Response.ContentLength (-1 when undeclared) is used as a size only after a sign check. Not decided: bit identity, chunk/MTU boundaries, received < announced at end of stream (no finalize => no file)."
+	explanations["C17"] = "Structural necessary condition (E1 must-pass inside package fsim): every rename of a received temp file to its destination (os.Rename or the configurable Rename hook) in the download device module, the upload owner module and the wget device module is reached only after digest-ok (bytes.Equal(SHA-384 recomputed over what was written, announced digest) is true, or — where the module allows it — no digest was announced, i.e. len(digest)==0) and, in the modules that count received bytes, after length-ok (received > announced is false). Received data is written only to files obtained from CreateTemp (os.CreateTemp or the CreateTemp hook): no other file-creating call exists in the package's transfer code, so the destination can come into being only through the guarded rename. Also: every Read in the transfer modules uses the returned byte count, and http.Response.ContentLength (-1 when undeclared) is used as a size only after a sign check. A loop over a constant table of message names that contains the digest message writes its element on every way round (no announcement is skipped); the declared methods of generic module types (DownloadContents[T]) are analysed as well. Not decided: bit identity, chunk/MTU boundaries, received < announced at end of stream (no finalize => no file)."
 }
 
 // writeCounters finds struct fields that accumulate the result of a Write:
